@@ -6,6 +6,8 @@ cmd     ::= ("m",k) | ("t",) | ("f",) | ("p",) | ("b",n) | ("c",n) | ("r",n|None
           | ("s",opt,on) | ("l",f) | ("k",v,lim) | ("{",clist) | ("(",clist)
           | ("i",cond,then,[(cond|None, body)...]) | ("w",is_until,cond,body) | ("o",arith,n,body)
           | ("a",[(matches,post,body|None)...]) | ("d",f,cmd)
+          | ("v",n|None)   assignment-only command: v=1 / v=$(exit n)
+          | (">",k,cmd)    compound command with a redirection (k: 0 `< /dev/null`, 1 `2>/dev/null`, 2 `2>&1`, 3 `<<<x`)
 clist   ::= [andor...] ; andor ::= (pipeline, [(is_and, pipeline)...]) ; pipeline ::= (bang, [cmd...])
 program ::= [clist...]   (complete commands, one per line)"""
 
@@ -66,6 +68,10 @@ class Render:
             return "set %s%s" % ("-" if c[2] else "+", o)
         if k == "l":
             return "f%d" % c[1]
+        if k == "v":
+            if c[1] is None:
+                return "v=1"
+            return "v=$(%s)" % ({0: "true", 1: "false"}.get(c[1], "exit %d" % c[1]))
         raise ValueError(c)
 
     def cmd(self, c):
@@ -106,6 +112,8 @@ class Render:
             return s + "esac"
         if k == "d":
             return "f%d() %s" % (c[1], self.cmd(c[2]))
+        if k == ">":
+            return "%s %s" % (self.cmd(c[2]), ["< /dev/null", "2>/dev/null", "2>&1", "<<<x"][c[1]])
         return self.leaf(c)
 
     def pipeline(self, p):
@@ -177,6 +185,14 @@ def enc_cmd(c, o):
     elif k == "d":
         o += ["d", str(c[1])]
         enc_cmd(c[2], o)
+    elif k == "v":
+        if c[1] is None:
+            o.append("V")
+        else:
+            o += ["v", str(c[1])]
+    elif k == ">":
+        o += [">", str(c[1])]
+        enc_cmd(c[2], o)
     else:
         raise ValueError(c)
 
@@ -229,7 +245,7 @@ def walk(prog, f):
             for _, _, b in c[1]:
                 if b is not None:
                     wl(b)
-        elif k == "d":
+        elif k in ("d", ">"):
             wc(c[2])
 
     def wp(p):
@@ -322,6 +338,8 @@ class Gen:
         if x < 0.85:
             return ("l", r.randrange(0, 3)) if not ctx.silent else st(r.choice([0, 1]))
         if x < 0.93 and self.opts:
+            if r.random() < 0.3:
+                return ("v", r.choice([None, 0, 1, 1, 3]))
             return ("s", r.choice(["e", "e", "e", "p", "p"]), r.random() < 0.7)
         return ("k", r.randrange(0, NCTR), r.randint(0, 3))
 
@@ -402,6 +420,28 @@ class Gen:
             arms.append((r.random() < 0.5, r.choice([0, 0, 1, 2]), body()))
         return arms
 
+    def assign_ctx(self, ctx):
+        """and-or lists / short sequences in which `$?` already equals the status of the command substitution of an
+        assignment-only command when that command runs (after an exempt failure)"""
+        r = self.rng
+        n = r.choice([1, 1, 1, 3])
+        tail = [] if ctx.silent else [simple(("p",))]
+        x = r.random()
+        if x < 0.4:
+            return [ao(pl(st(n)), (False, pl(("v", n))))] + tail              # (exit n) || v=$(exit n)
+        if x < 0.6:
+            return [simple(("t",), bang=True), simple(("v", 1))] + tail       # ! true; v=$(false)
+        if x < 0.8:
+            return [ao(pl(st(n)), (True, pl(("t",)))), simple(("v", n))] + tail   # (exit n) && true; v=$(exit n)
+        return [simple(("i", [simple(st(n))], [simple(("t",))], [(None, [simple(("v", n))])]))] + tail   # if (exit n); ... else v=$(exit n)
+
+    def maybe_redirect(self, c):
+        """attach a redirection to a compound command"""
+        r = self.rng
+        if self.opts and c[0] in ("{", "(", "i", "w", "o", "a", "k") and r.random() < 0.25:
+            return (">", r.choice([0, 1, 3]), c)     # 2>&1 would put error messages on stdout
+        return c
+
     def pipeline(self, ctx):
         r = self.rng
         bang = r.random() < 0.12
@@ -412,7 +452,7 @@ class Gen:
                 lastst = i == n - 1
                 stages.append(self.cmd(ctx.sub(loops=0, cl=None, silent=ctx.silent or not lastst)))
             return (bang, stages)
-        return (bang, [self.cmd(ctx)])
+        return (bang, [self.maybe_redirect(self.cmd(ctx))])
 
     def andor(self, ctx):
         r = self.rng
@@ -428,6 +468,9 @@ class Gen:
         n = r.randint(1, maxlen)
         out = []
         for _ in range(n):
+            if self.opts and r.random() < 0.08:
+                out += self.assign_ctx(ctx)
+                continue
             out.append(self.andor(ctx))
             if not ctx.silent and r.random() < 0.45:
                 out.append(simple(("p",)))
@@ -487,6 +530,9 @@ def _first_cmds(l):
 def _cmd_variants(c):
     k = c[0]
     subs = []
+    if k == ">":
+        yield from _cmd_variants_redir(c)
+        return
     if k in ("{", "("):
         subs = [c[1]]
     elif k == "i":
@@ -548,6 +594,16 @@ def _cmd_variants(c):
                 yield ("d", c[1], c2)
     elif k in ("b", "c") and c[1] > 1:
         yield (k, c[1] - 1)
+
+
+def _cmd_variants_redir(c):
+    out = [c[2]]
+    for c2 in _cmd_variants(c[2]):
+        if c2[0] in ("{", "(", "i", "w", "o", "a", "k"):
+            out.append((">", c[1], c2))
+        else:
+            out.append(c2)
+    return out
 
 
 def prog_variants(prog):
